@@ -727,12 +727,14 @@ def entry_points(w, cfg):
         w.ensure('material unchanged by conversion()', w.And(*[w.eq(after[k], feed[k]) for k in feed]))
         if stream is not None:
             w.ensure('stream keeps its package', stream.chemicals.IDs == IDs and stream._imol._chemicals is stream.chemicals)
-        rws = change.rows if tagged else [change]
+        rws = (change.rows if hasattr(change, 'rows') else list(change)) if tagged else [change]
+        # (natively conversion() hands back a dense array on a weight basis, a sparse one otherwise: read both the same way)
+        at = lambda row, j: row.dct.get(j, 0.) if hasattr(row, 'dct') else row[j]
         for i, ph in enumerate(PH if tagged else (None,)):
             for j, ID in enumerate(P3):      # the change is on the reaction's own package
-                w.ensure(f'conversion()[{ph},{ID}] = stoichiometric change', w.eq(rws[i].dct.get(j, 0.), e[ph, ID] - u[ph, ID]))
+                w.ensure(f'conversion()[{ph},{ID}] = stoichiometric change', w.eq(at(rws[i], j), e[ph, ID] - u[ph, ID]))
         w.ensure('reaction object unchanged', same_rxn(w, pre, snapshot_rxn(obj)))
-        w.canary('canary: conversion() of the reactant = -X * feed + 1', w.eq(rws[PH.index(sp0.r[0]) if tagged else 0].dct.get(P3.index(sp0.r[1]), 0.), -sp0.X * u[sp0.r] + 1))
+        w.canary('canary: conversion() of the reactant = -X * feed + 1', w.eq(at(rws[PH.index(sp0.r[0]) if tagged else 0], P3.index(sp0.r[1])), -sp0.X * u[sp0.r] + 1))
         return
 
     if case == 'unchecked':
@@ -769,7 +771,8 @@ def entry_points(w, cfg):
     w.ensure('flows read by name = flows read by position', w.And(*[w.eq(byname[k], gu[k]) for k in gu]))
     if case in ('empty-reaction', 'no-reactant-in-feed'):
         w.ensure('nothing to react: stream unchanged', w.And(*[w.eq(got[k], feed[k]) for k in feed]))
-        w.canary('canary: the inert flow changes', w.ne(got[[k for k in feed if not isinstance(feed[k], float)][0]], feed[[k for k in feed if not isinstance(feed[k], float)][0]]))
+        _k0 = ([k for k in feed if not isinstance(feed[k], float)] or list(feed))[0]      # (natively every flow is a float)
+        w.canary('canary: the inert flow changes', w.ne(got[_k0], feed[_k0]))
     else:
         w.canary('canary: reactant consumed = X * feed + 1', w.eq(u[sp0.r] - gu[sp0.r], sp0.X * u[sp0.r] + 1))
 
